@@ -463,6 +463,10 @@ theorem tail_follow (G : List Chunk) (order : List Nat) (h0 : 0 ∈ G.map (·.id
       simp at this
       omega
 
+/-- Non-vacuity: `C05.demoChunks` (order `[0, 2, 1]`: chunk 2 is the tail of chunk 0). -/
+example : TailFollow C05.demoChunks (C05.demoChunks.map (·.id)) [0, 2, 1] :=
+  tail_follow C05.demoChunks [0, 2, 1] (by decide) C05.demoChunks_order
+
 /-! ### 4. the next visible line -/
 
 /-- The first line that is neither blank nor a line marker. -/
